@@ -59,6 +59,9 @@ impl std::fmt::Debug for Apath {
 #[verifier::external_body]
 struct Transport { _p: () }
 
+// permission to remove a path: never granted in this unit
+uninterp spec fn removal_granted(path: Seq<u8>) -> bool;
+
 impl Transport {
     uninterp spec fn id(&self) -> int;
 
@@ -69,6 +72,20 @@ impl Transport {
             subdir_create_ok(relpath.spec_bytes()), //# C13.only_hunk_subdirs_created
         ensures
             r is Ok ==> dir_created(self.id(), relpath.spec_bytes()),
+    { unimplemented!() }
+
+    // DESTRUCTIVE primitives (DESIGN 4.4).  The index writer may not remove anything: `removal_granted` is never
+    // established, so a call added by an edit fails this labelled precondition (C07) instead of leaving the unit unposable.
+    #[verifier::external_body]
+    async fn remove_file(&self, relpath: &str) -> (r: std::result::Result<(), TransportError>)
+        requires
+            removal_granted(relpath.spec_bytes()), //# C07.backup_never_removes_archive_files
+    { unimplemented!() }
+
+    #[verifier::external_body]
+    async fn remove_dir_all(&self, relpath: &str) -> (r: std::result::Result<(), TransportError>)
+        requires
+            removal_granted(relpath.spec_bytes()), //# C07.backup_never_removes_archive_files
     { unimplemented!() }
 
     // transport::Transport::write: on Ok a file with exactly these bytes exists at relpath.
@@ -112,6 +129,14 @@ fn shim_fmt_pad_slash_pad<const A: usize, const B: usize>(x: u32, y: u32) -> (r:
     ensures
         bytes_of(r@) == dec_pad(x as nat, A as nat) + seq![SLASH] + dec_pad(y as nat, B as nat),
 { format!("{:0a$}/{:0b$}", x, y, a = A, b = B) }
+
+// format!("{}/{:0B}", s, y): the text s, a slash, y zero-padded (not used by the pinned tree: the shape a refactoring
+// of hunk_relpath through subdir_relpath takes, so that it is decided by the naming clause)
+#[verifier::external_body]
+fn shim_fmt_str_slash_pad<const B: usize>(x: String, y: u32) -> (r: String)
+    ensures
+        bytes_of(r@) == bytes_of(x@) + seq![SLASH] + dec_pad(y as nat, B as nat),
+{ format!("{}/{:0b$}", x, y, b = B) }
 
 #[verifier::external_body]
 fn shim_fmt_pad<const A: usize>(x: u32) -> (r: String)
